@@ -210,6 +210,74 @@ Section Samplers.
   Proof. induction calls as [|h rest IH]; intros st; cbn [Samplers.run_calls length]; [reflexivity | now rewrite IH]. Qed.
 End Samplers.
 
+(* ------------------------------------------------------------------ Part 3: one object, reconfigured between calls *)
+Section Reconfigured.
+  Variable ltb : Z -> Z -> bool.
+  Variable absdiff : Z -> Z -> Z.
+  Variables St Hist : Type.
+  Variable points_of : Hist -> list point.
+  Variable raw_of : list (list Z) -> cls -> St -> Hist -> nat -> list (list Z) * St.
+  Variable idx_of : list (list Z) -> St -> Hist -> nat -> list (list nat) * St.
+  Notation run_ssteps := (run_ssteps ltb absdiff St Hist points_of raw_of idx_of).
+  Notation sstep := (sstep St Hist).
+
+  (* the numpy shape contracts, for whatever space is in force at the call *)
+  Definition contracts_any_space : Prop := forall g, Forall (fun x : list Z => x <> []) g ->
+    raw_width_ok g St Hist (raw_of g) /\ idx_ok g St Hist (idx_of g) /\
+    raw_rows_ok St Hist (raw_of g) /\ idx_rows_ok St Hist (idx_of g).
+  Definition width_contracts_any_space : Prop := forall g, Forall (fun x : list Z => x <> []) g ->
+    raw_width_ok g St Hist (raw_of g) /\ idx_ok g St Hist (idx_of g).
+
+  (* every space the object is ever used on has non-empty grids (SearchSpace validation) *)
+  Definition spaces_ok (steps : list sstep) : Prop :=
+    Forall (fun s => match s with SCall g _ _ _ => Forall (fun x : list Z => x <> []) g | SFailed _ => True end) steps.
+
+  Lemma run_steps_on_grid c : width_contracts_any_space -> forall steps st, spaces_ok steps ->
+    Forall (fun e => Forall (on_grid Z (fst (fst e))) (snd e)) (run_ssteps c steps st).
+  Proof.
+    intros Hc. induction steps as [|[g bsize budget h|f] rest IH]; intros st Hs; cbn [Samplers.run_ssteps].
+    - constructor.
+    - inversion Hs as [|? ? Hg Hrest]; subst. destruct (Hc g Hg) as [Hw Hi]. constructor.
+      + cbn [fst snd]. now apply sampler_sample_on_grid.
+      + now apply IH.
+    - inversion Hs; subst. now apply IH.
+  Qed.
+
+  Lemma run_steps_main c : contracts_any_space -> forall steps st, spaces_ok steps ->
+    Forall (fun e => length (snd e) = snd (fst e) /\ Forall (on_grid Z (fst (fst e))) (snd e) /\
+                     Forall (fun p => length p = length (fst (fst e))) (snd e)) (run_ssteps c steps st).
+  Proof.
+    intros Hc. induction steps as [|[g bsize budget h|f] rest IH]; intros st Hs; cbn [Samplers.run_ssteps].
+    - constructor.
+    - inversion Hs as [|? ? Hg Hrest]; subst. destruct (Hc g Hg) as [Hw [Hi [Hr Hir]]]. constructor.
+      + cbn [fst snd].
+        destruct (sampler_sample_shape ltb absdiff g St Hist points_of (raw_of g) (idx_of g) Hg c bsize budget h st Hw Hi Hr Hir)
+          as [Hl Hd].
+        split; [exact Hl|]. split; [now apply sampler_sample_on_grid | exact Hd].
+      + now apply IH.
+    - inversion Hs; subst. now apply IH.
+  Qed.
+
+  (* one log entry per successful call, none for a failed one, in order *)
+  Lemma run_steps_length c : forall steps st, length (run_ssteps c steps st) = scalls_of St Hist steps.
+  Proof.
+    unfold scalls_of. induction steps as [|[g bsize budget h|f] rest IH]; intros st; cbn [Samplers.run_ssteps filter length].
+    - reflexivity.
+    - now rewrite IH.
+    - apply IH.
+  Qed.
+
+  Lemma run_steps_spaces c : forall steps st,
+    map (fun e => (fst (fst e), snd (fst e))) (run_ssteps c steps st) =
+    concat (map (fun s => match s with SCall g b _ _ => [(g, b)] | SFailed _ => [] end) steps).
+  Proof.
+    induction steps as [|[g bsize budget h|f] rest IH]; intros st; cbn [Samplers.run_ssteps map concat app].
+    - reflexivity.
+    - cbn [fst snd]. now rewrite IH.
+    - apply IH.
+  Qed.
+End Reconfigured.
+
 (* ------------------------------------------------------------------ FINDING: the row-count clause really needs raw_rows_ok.
    surrogate.py:128 `candidates[sorting_indices][:batch_size]` yields min(pool, batch_size) rows; with a candidate pool of 2 rows
    and batch_size 4 the widths are fine (so every row is on the grid) but only 2 rows come back. *)
